@@ -289,6 +289,8 @@ class SATEncoder:
     def _encode_sum_le(self, variables: list["IntVar"], target: int) -> None:
         """Encode sum(variables) <= target."""
         if len(variables) == 0:
+            if target < 0:
+                self._clauses.append([])  # the empty sum is 0
             return
         if len(variables) == 1:
             v = variables[0]
